@@ -947,6 +947,18 @@ func emitRTRow(cw *caseWriter, via string, src interface{}, how int) {
 	}
 	var res interface{}
 	var err error
+	// a NaN or an infinity has no JSON rendering: MarshalJSON of the cell refuses it (rightly), so for those values
+	// the rendering is taken from Export instead (what ToNumber / ToString made of the value)
+	switch f := src.(type) {
+	case float64:
+		if (math.IsNaN(f) || math.IsInf(f, 0)) && how%4 == 0 {
+			how++
+		}
+	case float32:
+		if (f != f || math.IsInf(float64(f), 0)) && how%4 == 0 {
+			how++
+		}
+	}
 	mkValue := func(x interface{}) jsonline.Value {
 		// the constructor named after the format, or the general one, in turn
 		if (how/4)%2 == 0 {
